@@ -28,6 +28,7 @@ PROP = {
         "hook secs1/verif_export_blocks.go: VerifNewLine builds the production lineIO (newLineIO) over a caller-supplied conn and injects the clock; SendBlock/ReceiveBlock/PollByte/PutByte call sendBlock/receiveBlock/readByte/writeByte",
         "the harness's simulated conn (virtual time, scripted line faults), its own implementation of the model's peer, and the fault-injecting middlebox of the e2e run",
     ],
+    "manifest_text": "Safety AND progress of the two-engine line LTS: exactly-once/in-order, retry bound, contention, no deadlock over all runs (C18_exactly_once ...), and C18_progress: from every reachable state (through any finite fault history) every run of non-fault steps, under any scheduling of engines and timers, has at most mu(s) steps and ends settled - link down (definite failure after RetryLimit+1 attempts) or every queued message of both directions delivered exactly once with its send returned nil. Measure: mu s = (blocks not yet ACK'd) * bigK + sum over both ends of [phase term from the remaining retry budget psi r = (RetryLimit+1-r)*cst + small per-phase offsets + weight of each item in flight (ENQ 4, EOT/ACK/NAK 1, block blkw)], cst/blkw = 8*RetryLimit_slave+20 / +14 for the master, 8 / 2 for the slave. Partial only in: the synchronous-line assumption (no stale characters, T1 < T2), real-time bounds (which T2 fires first: C18_failure_by_timer_order), link re-establishment.",
     "assumptions": [
         "synchronous line: everything an end has written passes the line (delivered, dropped or garbled) before any timer of either end expires; a timeout is enabled only when nothing is in flight (no stale characters; T1, T2 far above the transit time)",
         "T1 < T2: after a bad or unexpected arrival in the receive procedure the NAK (sent after at most T1 of silence) precedes the peer's T2 expiry",
